@@ -227,3 +227,92 @@ Proof.
   - reflexivity.
   - intros [] []. reflexivity.
 Qed.
+
+(* ---- recursion through a plain rule (Indirect.v):  @leftrec X = @:A | @:N;  A = l:*X '+' r:N ---------- *)
+From PegV Require Import Indirect.
+Definition nX : name := [88]%N.
+Definition nAd : name := [65]%N.
+Definition nrt : name := [114]%N.
+Definition x_rnum : expr := EField (FNamed nrt) false nN.
+Definition b_onum : expr := ESeq [EField FOverride false nN].
+Definition rX : rule := {| r_directives := [DExport; DLeftrec]; r_name := nX;
+   r_def := EChoice [ESeq [EField FOverride false nAd]; b_onum] |}.
+Definition rAd : rule := {| r_directives := []; r_name := nAd;
+   r_def := EChoice [ESeq [EField (FNamed nl) true nX; x_plus; x_rnum]] |}.
+Definition g_ind : grammar :=
+  [GRule rX; GRule rAd;
+   GRule {| r_directives := [DString; DNoSkipWs]; r_name := nN;
+            r_def := EChoice [ESeq [EClosure (EChoice [ESeq [ERange (SIChar 48%N) (SIChar 57%N)]]) true]] |}].
+Definition rfX : list fdesc :=
+  Eval vm_compute in match get_fields fields_cfg_doc (gf_fuel g_ind) g_ind (r_def rX) with GFOk l => l | _ => [] end.
+Definition rfAd : list fdesc :=
+  Eval vm_compute in match get_fields fields_cfg_doc (gf_fuel g_ind) g_ind (r_def rAd) with GFOk l => l | _ => [] end.
+Definition fdsX : list fdesc :=
+  Eval vm_compute in match filt fields_cfg_doc g_ind (actx rX rfX) (r_def rX) with Some l => l | None => [] end.
+Definition innerX1 : list fdesc :=
+  Eval vm_compute in match own_fields fields_cfg_doc g_ind (ialt1 rAd) with Some l => l | None => [] end.
+Definition fdsAd1 : list fdesc :=
+  Eval vm_compute in match filt fields_cfg_doc g_ind (actx rAd rfAd) (palt rX nl true x_plus [x_rnum]) with Some l => l | None => [] end.
+
+Example ind_is_indirect :
+  forall k st gl c,
+    Wi g_ind rX rAd rfX rfAd st -> cache_get nX (off st) (g_cache gl) = Some c ->
+    rule_body unit scfg_doc fields_cfg_doc no_hooks g_ind
+      (run unit scfg_doc term_cfg_expected fields_cfg_doc rcfg_doc no_hooks g_ind (8 + k)) rX st gl =
+    indirect_body unit scfg_doc term_cfg_expected fields_cfg_doc rcfg_doc no_hooks g_ind rX rAd nl x_plus [x_rnum] b_onum []
+      rfX fdsX innerX1 rfAd fdsAd1 k st c gl.
+Proof.
+  intros k st gl c W C.
+  refine (indirect_body_eq unit scfg_doc term_cfg_expected fields_cfg_doc rcfg_doc no_hooks g_ind rX rAd nl true x_plus [x_rnum] b_onum []
+            eq_refl eq_refl eq_refl eq_refl eq_refl eq_refl eq_refl rfX fdsX innerX1 rfAd fdsAd1 _ _ _ _ _ k st gl c W C);
+    vm_compute; reflexivity.
+Qed.
+
+(* 1+2+3 through the plain rule: the Add nodes are nested to the left (Box is invisible, `@:` makes the
+   rule's value the enum of its alternatives) *)
+Definition addv (left : value) (d : N) : value := VEnum nAd (VStruct nAd [(nl, left); (nrt, VStr [d])] None).
+Example ind_left_nested :
+  exists st, fst (m_parse unit scfg_doc term_cfg_expected fields_cfg_doc rcfg_doc no_hooks g_ind 90 nX [49; 43; 50; 43; 51]%N tt)
+             = MOk (addv (addv (VEnum nN (VStr [49%N])) 50) 51) st /\ off st = 5.
+Proof. eexists. split; [vm_compute; reflexivity|reflexivity]. Qed.
+
+(* ... and the same defect when the rule is entered where a blank follows: " 1+2" gives 1 *)
+Example ind_leading_blank_refuted :
+  exists st, fst (m_parse unit scfg_doc term_cfg_expected fields_cfg_doc rcfg_doc no_hooks g_ind 90 nX [32; 49; 43; 50]%N tt)
+             = MOk (VEnum nN (VStr [49%N])) st /\ off st = 2.
+Proof. eexists. split; [vm_compute; reflexivity|reflexivity]. Qed.
+
+(* the hypotheses of the closed form for the indirect style are met by g_ind *)
+Example ind_closed_form :
+  forall st, Wi g_ind rX rAd rfX rfAd st ->
+  forall F gl r gl',
+    cache_get nX (off st) (g_cache gl) = None ->
+    ev_rule (run unit scfg_doc term_cfg_expected fields_cfg_doc rcfg_doc no_hooks g_ind F) nX st gl = (r, gl') ->
+    match r with
+    | MOk v s =>
+      exists v0 s0,
+        Bok unit scfg_doc term_cfg_expected fields_cfg_doc rcfg_doc no_hooks g_ind rX b_onum [] rfX fdsX st v0 s0 /\
+        StarI unit scfg_doc term_cfg_expected fields_cfg_doc rcfg_doc no_hooks g_ind rX rAd nl x_plus [x_rnum] rfX fdsX innerX1 rfAd fdsAd1 st v0 s0 v s /\
+        StopI unit scfg_doc term_cfg_expected fields_cfg_doc rcfg_doc no_hooks g_ind rX rAd nl x_plus [x_rnum] rfX fdsX innerX1 rfAd fdsAd1 st v s
+    | MErr _ => Bfail unit scfg_doc term_cfg_expected fields_cfg_doc rcfg_doc no_hooks g_ind rX b_onum [] rfX fdsX st
+    | _ => True
+    end.
+Proof.
+  intros st W F gl r gl' C E.
+  refine (indirect_closed_form unit scfg_doc term_cfg_expected fields_cfg_doc rcfg_doc no_hooks g_ind rX rAd nl true x_plus [x_rnum] b_onum []
+            eq_refl eq_refl eq_refl eq_refl eq_refl eq_refl eq_refl rfX fdsX innerX1 rfAd fdsAd1 _ _ _ _ _ clean_sum _ _ _ _ _ _ eq_refl eq_refl
+            st W F gl r gl' C E).
+  - vm_compute. reflexivity.
+  - vm_compute. reflexivity.
+  - vm_compute. reflexivity.
+  - vm_compute. reflexivity.
+  - vm_compute. reflexivity.
+  - intros n H. destruct (clean_sum_cases n H) as [->| ->]; vm_compute; auto.
+  - intros n r0 H Fr. destruct (clean_sum_cases n H) as [->| ->]; vm_compute in Fr.
+    + injection Fr as <-. reflexivity.
+    + discriminate Fr.
+  - reflexivity.
+  - reflexivity.
+  - reflexivity.
+  - intros [] []. reflexivity.
+Qed.
